@@ -163,8 +163,13 @@ def make_line_ds(case):
     dims = ["x", "z", "r", "q"]
     coords = {"x": XS[:nx], "z": zs, "r": RV[:nr], "q": QV[:nq]}
     data = {"y": (dims, y)}
-    data["ye"] = (dims, 0.1 + 0.01 * np.arange(y.size).reshape(shape))
-    data["xe"] = (dims, 0.2 + 0.01 * np.arange(y.size).reshape(shape))
+    ye = 0.1 + 0.01 * np.arange(y.size).reshape(shape)
+    xe = 0.2 + 0.01 * np.arange(y.size).reshape(shape)
+    # an error value may be missing where the point itself is fine
+    ye[nx - 1, 0] = np.nan
+    xe[0, nz - 1] = np.inf
+    data["ye"] = (dims, ye)
+    data["xe"] = (dims, xe)
     data["cline"] = (("z",), np.array([1.5 + 2.0 * i for i in range(nz)]))
     data["cpt"] = (dims, 1.0 + np.arange(y.size).reshape(shape) * 0.5)
     if case["variant"] == "multi":
@@ -510,7 +515,8 @@ def check_hist(case):
         h[3, -1] = np.inf
     elif case["holes"] == "series":
         h[:, 0] = np.nan
-    zs = ZNUM[:nz]
+    # (a z value of zero: a perfectly good label)
+    zs = ([0.0] + ZNUM[1:])[:nz]
     data = {"h": (("s", "z", "q"), h)}
     for v in range(nz):
         data["h%d" % v] = (("s", "q"), h[:, v])
